@@ -820,6 +820,8 @@ class Interp:
             return new_
         if path == 'dataclasses.asdict' and len(args) == 1 and isinstance(args[0], Obj):
             return {k_: v_ for k_, v_ in args[0].attrs.items() if k_ != '__record_fields__'}
+        if path in ('typing.get_args', 'typing_extensions.get_args') and len(args) == 1 and isinstance(args[0], PyStub) and hasattr(args[0], 'literal_args'):
+            return tuple(args[0].literal_args)
         if path in ('typing.cast', 'typing_extensions.cast') and len(args) == 2:
             return args[1]
         if path == 'operator.index' and len(args) == 1:
@@ -1644,6 +1646,10 @@ class Interp:
             if not _concrete(k):
                 raise Undecided('abstract subscript')
             return v[k]
+        if isinstance(v, Ref) and v.path.split('.')[-1] == 'Literal' and _concrete(k):
+            st_ = PyStub()
+            st_.literal_args = k if isinstance(k, tuple) else (k,)
+            return st_
         if isinstance(v, Ref):
             return v  # a parametrised type
         return UNK
